@@ -1,12 +1,64 @@
-"""CPU-time watchdog around calls into Rich.  A change under test can make a call loop or allocate for ever;
-the driver turns that into an observation ("no-termination") that TLC judges, instead of the check hanging or
-being killed.  ITIMER_VIRTUAL counts this process's CPU time, so machine load cannot trigger it.  Main thread only."""
+"""CPU-time watchdogs around calls into Rich.  A change under test can make a call loop or allocate for ever;
+the drivers turn that into an observation that TLC judges ("no-termination" / "Hang"), instead of the check
+hanging or being killed.  ITIMER_VIRTUAL counts this process's own CPU time, so machine load (or waiting for a
+TLC child) cannot trigger it.  Signals are delivered to the main thread only; the thread-based drivers
+(C10-C12) have their own budget in engine/dsched.py.
+
+  cpu_deadline(s)   explicit deadline around one call (used where a driver wants a tight bound)
+  install_global()  safety net for every driver: a repeating tick; when the OUTERMOST frame that executes code
+                    of the Rich tree is the same frame object at three consecutive ticks (>= 2 ticks of CPU inside
+                    one call into Rich; real calls take milliseconds), Hang is raised inside that call."""
 import contextlib
 import signal
+import threading
 
 
 class Hang(Exception):
     pass
+
+
+_G = dict(root=None, tick=0.0, last=None, count=0, raised=0, on_limit=None)
+FAST_TICK = 3.0     # after the first hang the tree under test is known to be faulty: later hangs are cut short
+LIMIT = 6           # after that many hangs the run is ended through on_limit (harness: VIOLATION no-termination)
+
+
+def _outermost_rich_frame(frame):
+    found = None
+    while frame is not None:
+        if frame.f_code.co_filename.startswith(_G["root"]):
+            found = frame
+        frame = frame.f_back
+    return found
+
+
+def _on_tick(signum, frame):
+    f = _outermost_rich_frame(frame)
+    if f is None:
+        _G["last"], _G["count"] = None, 0
+        return
+    if _G["last"] is f:
+        _G["count"] += 1
+    else:
+        _G["last"], _G["count"] = f, 1
+    if _G["count"] >= 3:
+        _G["last"], _G["count"] = None, 0
+        _G["raised"] += 1
+        where = "%s:%d in %s" % (f.f_code.co_filename[len(_G["root"]):], f.f_lineno, f.f_code.co_name)
+        msg = "one call into Rich used more than %.0f s of CPU (rich/%s)" % (2 * _G["tick"], where)
+        if _G["raised"] == 1 and _G["tick"] > FAST_TICK:
+            _G["tick"] = FAST_TICK
+            signal.setitimer(signal.ITIMER_VIRTUAL, FAST_TICK, FAST_TICK)
+        if _G["raised"] >= LIMIT and _G["on_limit"] is not None:
+            _G["on_limit"](where, msg)
+        raise Hang(msg)
+
+
+def install_global(rich_root, tick=20.0):
+    if threading.current_thread() is not threading.main_thread():
+        return
+    _G.update(root=rich_root.rstrip("/") + "/", tick=tick, last=None, count=0)
+    signal.signal(signal.SIGVTALRM, _on_tick)
+    signal.setitimer(signal.ITIMER_VIRTUAL, tick, tick)
 
 
 def _on_alarm(signum, frame):
@@ -16,9 +68,11 @@ def _on_alarm(signum, frame):
 @contextlib.contextmanager
 def cpu_deadline(seconds=5.0):
     old = signal.signal(signal.SIGVTALRM, _on_alarm)
-    signal.setitimer(signal.ITIMER_VIRTUAL, seconds)
+    prev = signal.setitimer(signal.ITIMER_VIRTUAL, seconds)
     try:
         yield
     finally:
         signal.setitimer(signal.ITIMER_VIRTUAL, 0)
         signal.signal(signal.SIGVTALRM, old)
+        if prev[0] > 0 or prev[1] > 0:          # re-arm the global tick
+            signal.setitimer(signal.ITIMER_VIRTUAL, prev[1] or prev[0], prev[1])
